@@ -1153,3 +1153,118 @@ Proof.
   unfold cutoff_life. rewrite !life_from_app. cbn [life_from].
   rewrite !app_comm_cons, last_last, <- app_assoc. reflexivity.
 Qed.
+
+(* ====================================================================================
+   MINSCORE on the boundary.  Bit scores are floats and may be negative (weak HMMer hits, dynamic
+   profiles), the rule grammar accepts a threshold of 0: the clause "minscore(p, s) additionally
+   needs bitscore >= s" is stated here over Z (doubled scores), so negative values, 0 and the
+   comparison >= are exact.
+   ==================================================================================== *)
+Lemma scored_iff cx o p s :
+  scored cx o p s = true <-> exists h, In h (hits_of cx o) /\ fst h = p /\ 2 * s <= snd h.
+Proof.
+  unfold scored. rewrite existsb_exists. split.
+  - intros [h [Hin Hb]]. apply andb_true_iff in Hb. destruct Hb as [Hp Hs].
+    exists h. split; [exact Hin|]. split; [apply Z.eqb_eq; exact Hp|apply Z.leb_le; exact Hs].
+  - intros [h [Hin [Hp Hs]]]. exists h. split; [exact Hin|]. apply andb_true_iff.
+    split; [apply Z.eqb_eq; exact Hp|apply Z.leb_le; exact Hs].
+Qed.
+
+(* the genes a non-local condition at g can look at: g itself and the genes closer than the cutoff *)
+Definition reach cx (g o : Z) : Prop := o = g \/ In o (near cx g).
+
+Lemma holds_score_iff cx p s g :
+  holds cx (Score false p s) g false = true <->
+  exists o h, reach cx g o /\ In h (hits_of cx o) /\ fst h = p /\ 2 * s <= snd h.
+Proof.
+  cbn [holds negb andb]. rewrite xorb_false_l, orb_true_iff, existsb_exists. split.
+  - intros [H|[o [Ho H]]]; apply scored_iff in H; destruct H as [h Hh].
+    + exists g, h. split; [left; reflexivity|exact Hh].
+    + exists o, h. split; [right; exact Ho|exact Hh].
+  - intros [o [h [[->|Ho] Hh]]].
+    + left. apply scored_iff. exists h. exact Hh.
+    + right. exists o. split; [exact Ho|]. apply scored_iff. exists h. exact Hh.
+Qed.
+
+Lemma detect_score_iff cx : results_known cx -> forall p s g,
+  met (detect cx (Score false p s) g) = true <->
+  exists o h, reach cx g o /\ In h (hits_of cx o) /\ fst h = p /\ 2 * s <= snd h.
+Proof. intros Hk p s g. rewrite (detect_met_holds cx Hk). apply holds_score_iff. Qed.
+
+(* no hit of p with bitscore >= s on the gene or in range - e.g. threshold 0 and only NEGATIVE
+   scores: minscore is false, `not minscore` true, and the profile is no reason *)
+Lemma detect_score_all_below cx : results_known cx -> forall neg p s g,
+  (forall o h, reach cx g o -> In h (hits_of cx o) -> fst h = p -> snd h < 2 * s) ->
+  met (detect cx (Score neg p s) g) = neg /\ matches (detect cx (Score neg p s) g) = [].
+Proof.
+  intros Hk neg p s g Hall.
+  assert (Hf : holds cx (Score false p s) g false = false).
+  { destruct (holds cx (Score false p s) g false) eqn:E; [|reflexivity].
+    apply holds_score_iff in E. destruct E as [o [h [Hr [Hin [Hp Hs]]]]].
+    specialize (Hall o h Hr Hin Hp). lia. }
+  assert (Hown : scored cx g p s = false).
+  { destruct (scored cx g p s) eqn:E; [|reflexivity]. apply scored_iff in E. destruct E as [h [Hin [Hp Hs]]].
+    specialize (Hall g h (or_introl eq_refl) Hin Hp). lia. }
+  split.
+  - rewrite (detect_met_holds cx Hk). cbn [holds negb andb] in *. rewrite xorb_false_l in Hf. rewrite Hf.
+    destruct neg; reflexivity.
+  - unfold detect. rewrite (eval_matches_reasons cx Hk). unfold reasons. cbn [reasons_raw]. rewrite Hown. reflexivity.
+Qed.
+
+(* one sufficient hit decides, whatever the other hits of the profile score (mixed signs) *)
+Lemma detect_score_one_suffices cx : results_known cx -> forall neg p s g o h,
+  reach cx g o -> In h (hits_of cx o) -> fst h = p -> 2 * s <= snd h ->
+  met (detect cx (Score neg p s) g) = negb neg.
+Proof.
+  intros Hk neg p s g o h Hr Hin Hp Hs.
+  assert (Ht : holds cx (Score false p s) g false = true).
+  { apply holds_score_iff. exists o, h. repeat split; assumption. }
+  rewrite (detect_met_holds cx Hk). cbn [holds negb andb] in *. rewrite xorb_false_l in Ht. rewrite Ht.
+  destruct neg; reflexivity.
+Qed.
+
+(* lowering the threshold keeps a minscore true *)
+Lemma holds_score_monotone cx p s1 s2 g local : s1 <= s2 ->
+  holds cx (Score false p s2) g local = true -> holds cx (Score false p s1) g local = true.
+Proof.
+  intros Hle. cbn [holds]. rewrite !xorb_false_l, !orb_true_iff, !andb_true_iff, !existsb_exists.
+  assert (Hm : forall o, scored cx o p s2 = true -> scored cx o p s1 = true).
+  { intros o H. apply scored_iff in H. destruct H as [h [Hin [Hp Hs]]]. apply scored_iff. exists h.
+    split; [exact Hin|]. split; [exact Hp|]. lia. }
+  intros [H|[Hl [o [Ho H]]]].
+  - left. apply Hm. exact H.
+  - right. split; [exact Hl|]. exists o. split; [exact Ho|apply Hm; exact H].
+Qed.
+
+(* when no bit score is negative, minscore(p, 0) is the plain name p ... *)
+Lemma scored_zero_has cx : (forall o h, In h (hits_of cx o) -> 0 <= snd h) ->
+  forall o p, scored cx o p 0 = has cx o p.
+Proof.
+  intros Hnn o p. apply bool_eq_iff. split.
+  - apply scored_has.
+  - intros H. apply smem_In in H. unfold poss in H. apply in_map_iff in H. destruct H as [h [Hp Hin]].
+    apply scored_iff. exists h. split; [exact Hin|]. split; [exact Hp|]. specialize (Hnn o h Hin). lia.
+Qed.
+
+Lemma holds_score_zero_is_name cx : (forall o h, In h (hits_of cx o) -> 0 <= snd h) ->
+  forall neg p g local, holds cx (Score neg p 0) g local = holds cx (Single neg p) g local.
+Proof.
+  intros Hnn neg p g local. cbn [holds]. rewrite (scored_zero_has cx Hnn).
+  f_equal. f_equal. f_equal. apply existsb_ext_in. intros o _. apply scored_zero_has. exact Hnn.
+Qed.
+
+(* ... and not otherwise: gene 1, 2 kb after gene 0, carries the only hit of p1, scoring -1 *)
+Definition weak_ctx : ctx :=
+  mkCtx 10000 None [(0, [mkPart 1000 2000 1]); (1, [mkPart 4000 5000 1]); (2, [mkPart 40000 41000 1])]
+        [(0, [(0, 60)]); (1, [(1, -2)]); (2, [(1, 160)])].
+Lemma score_zero_name_witness : exists cx p g,
+  results_known cx /\ (forall o h, In h (hits_of cx o) -> fst h = p -> -2 <= snd h) /\
+  holds cx (Score false p 0) g false <> holds cx (Single false p) g false.
+Proof.
+  exists weak_ctx, 1, 0. split; [intros o Ho; cbn in Ho; cbn; tauto|]. split.
+  - intros o h. unfold hits_of. cbn [results weak_ctx assoc].
+    destruct (o =? 0) eqn:E0; [intros [<-|[]]; cbn; lia|].
+    destruct (o =? 1) eqn:E1; [intros [<-|[]]; cbn; lia|].
+    destruct (o =? 2) eqn:E2; [intros [<-|[]]; cbn; lia|]. intros [].
+  - vm_compute. discriminate.
+Qed.
